@@ -21,10 +21,10 @@ PLAN = {
                      ('MC_2x1b_all', 'mc', None), ('W_cross', 'witness', 'NoCrossLoopWait')],
     },
     'C06': {
-        'quick': [('MC_3x1_faults', 'mc', None), ('MC_2x1b_all', 'mc', None),
+        'quick': [('MC_3x1_faults', 'mc', None), ('MC_2x1b_all', 'mc', None), ('MC_3x1_evict', 'mc', None),
                   ('W_D2', 'witness', 'Inv_C06'), ('W_D1k', 'witness', 'Inv_C06')],
         'thorough': [('MC_3x1_faults', 'mc', None), ('MC_2x1b_all', 'mc', None), ('MC_3x1_life', 'mc', None),
-                     ('MC_2x2_life', 'mc', None), ('MC_3x1', 'mc', None),
+                     ('MC_2x2_life', 'mc', None), ('MC_3x1', 'mc', None), ('MC_3x1_evict', 'mc', None),
                      ('W_D2', 'witness', 'Inv_C06'), ('W_D1k', 'witness', 'Inv_C06')],
     },
 }
@@ -35,7 +35,8 @@ def model_check(ctx):
         if kind == 'witness':
             ctx.mc('cache', 'MC_Cache', cfg + '.cfg', expect_violation=expect, timeout=600)
         else:
-            ctx.mc('cache', 'MC_Cache', cfg + '.cfg', timeout=2400, require_actions=ALL_ACTIONS)
+            ctx.mc('cache', 'MC_Cache', cfg + '.cfg', timeout=2400,
+                   require_actions=ALL_ACTIONS + (['Evict'] if 'evict' in cfg else []))
 
 
 def replay_behaviours(ctx):
@@ -106,7 +107,7 @@ def conformance(ctx, executed, limit=120):
         mod = ('---- MODULE MC_CacheConform ----\nEXTENDS CacheConform\nCLoops == %s\nCCallers == 1..%d\nCLoopOf == %s\n====\n'
                % (loopset, len(callers), loopof))
         cfg = ('INIT CInit\nNEXT CNext\nCONSTANTS\n Loops <- CLoops\n Callers <- CCallers\n LoopOf <- CLoopOf\n MaxInv = 9\n MaxRetry = 9\n'
-               ' OwnMarkerOnly = TRUE\n ForeignCancelRetry = TRUE\n LifeCycles = TRUE\n Cancels = TRUE\n Failures = TRUE\n Timeouts = TRUE\n'
+               ' OwnMarkerOnly = TRUE\n ForeignCancelRetry = TRUE\n LifeCycles = TRUE\n Cancels = TRUE\n Failures = TRUE\n Timeouts = TRUE\n Evictions = FALSE\n'
                'CONSTRAINT Reached\nCONSTRAINT NotYetAccepted\nCHECK_DEADLOCK FALSE\n')
         work = tlc.scratch('conf-')
         try:
